@@ -2,6 +2,7 @@
 import json
 
 import gen
+import bigfam
 import mcfam
 from gen import P, Q, TR, FA, L0, M0
 
@@ -97,7 +98,11 @@ def run(ctx):
             ctx.log('mechanism drift (diagnostic only): ' + json.dumps(sorted(drift.items())[0][1])[:400])
     events, bad = mcfam.run_families(ctx, [('scope2', fam_a), ('catalogue3', fam_b), ('deep', fam_c), ('liveness3', fam_l), ('shared-polarity', fam_s), ('nary', fam_n), ('random', fam_d),
                                            ('text', fam_e), ('tall', fam_t)])
+    # large lassos (LargeShapes.tla): structures with more than a thousand states, answers by closed forms
+    bigfam.run_big(ctx, bigfam.cases(rnd, ['mc'], 3 if q else 30, logics=('LTL',)))
 
 
 def replay(ctx, path):
+    if bigfam.maybe_replay(ctx, path):
+        return
     mcfam.replay_cases(ctx, path)
